@@ -700,7 +700,7 @@ func RunC08(c *core.Ctx) {
 		}
 		n := 120
 		if !c.Quick() {
-			n = 1500
+			n = 450 // (nine configurations; 1500 each took more than 45 minutes)
 		}
 		for i := 0; i < n; i++ {
 			doHist(c, cf, genRandom(c, 4+c.Rng.Intn(14)), "random-interleaving", nil)
